@@ -55,6 +55,7 @@ func (s *Scanner) Scan() bool {
 			err error
 			pos pars.Position
 		}, len(sequenceParsers))
+		start := s.s.Position()
 		for i, p := range sequenceParsers {
 			s.s.Push()
 			s.res, errs[i].err = p.Parse(s.s)
@@ -65,6 +66,14 @@ func (s *Scanner) Scan() bool {
 			}
 			errs[i].pos = s.s.Position()
 			s.s.Pop()
+			// A parser which recognised the start of a record and failed
+			// later may have discarded the pushed states: the input cannot
+			// be rewound, so the remaining formats must not be tried on
+			// whatever follows the broken record.
+			if s.s.Position() != start {
+				s.err = errs[i].err
+				return false
+			}
 		}
 		argmax := 0
 		maxpos := pars.Position{Line: 0, Byte: 0}
